@@ -5,7 +5,7 @@ rows = []
 for f in sorted(glob.glob('/verif/seeded/C*_*/meta.json')):
     m = json.load(open(f))
     checks = '; '.join(f"{c['cmd'].split()[1]}: exit {c['exit']} ({c['violation_lines']} VIOLATION lines)" for c in m.get('checks', [])) or ('patch does not apply to the repaired tree' if not m.get('applies_to_current_tree', True) else '-')
-    caught = ', '.join(c.split()[1] for c in m.get('caught_by', [])) or ('n/a' if not m.get('applies_to_current_tree', True) else 'MISSED')
+    caught = ', '.join(c.split()[1] for c in m.get('caught_by', [])) or ('n/a' if not m.get('applies_to_current_tree', True) else ('neutralised by a repair' if m.get('neutralised_by') else 'MISSED'))
     rows.append((m['id'], (m.get('files') or ['?'])[0], m.get('what_changed', '').replace('|', '/').replace('\n', ' ')[:220], caught, checks))
 out = ['# Seeded changes', '',
        'One directory per kept change: `patch.diff` (apply with `git -C /repo apply`), `demo.rs` (the author\'s demonstration, a test that fails with the patch and passes without),',
